@@ -76,6 +76,24 @@ CLAIMS["C20"] = {
   "technique": "contract-based deductive verification: lockset/hand-off obligations over go/ssa + ghost-state postconditions (SMT)",
   "design_ref": "DESIGN.md section 4 C20, family F9",
 }
-NA = {k: PENDING for k in ["C01","C02","C04","C06","C18","C19"]}
+CLAIMS["C06"] = {
+  "text": "Proof of the constant-enum clause: TypeScript enum initialisers and const inlining are evaluated by js_ast.FoldBinaryOperator / ToInt32 / ToUint32 (with every operator enabled), which are proved to compute the ECMA-262 Number::* operations, the ToInt32-based shifts and bitwise operators, code-unit string comparison and the Number::exponentiate special cases for all operand values. The obligations are those of C03, reported here because a wrong fold changes an emitted enum value.",
+  "note": "NOT covered: type-syntax skipping and its backtracking, that typed and untyped code compile identically, unused-import elision, namespaces and enum/namespace merging, parameter properties, decorators, useDefineForClassFields and tsconfig target handling, enum auto-increment. These are whole-parser relations.",
+  "technique": "contract-based deductive verification: WP-style VCs from go/ssa (FP + bit-vector), SMT",
+  "design_ref": "DESIGN.md section 4 C06",
+}
+CLAIMS["C18"] = {
+  "text": "Proof that the content hash covers what the final bytes of a chunk depend on, as data-flow obligations over go/ssa: in generateIsolatedHash the bytes between placeholders, part ranges, path template, public path and linked legal comments reach the digest through the length-prefixed writer; in appendIsolatedHashesForImportedChunks the recursive visit of every cross-chunk import is unconditional (only the visited check guards it) and takes the import's chunk index, and the asset path mixed in is the path relative to the output directory; in the bundler the template tested for [hash] is the template that names the file. Two coverage obligations (which chunk a placeholder refers to) fail on the pinned tree and are recorded known findings with a reproducing pair of builds.",
+  "note": "NOT covered: collision resistance of xxhash, that every reference in emitted text goes through a unique key, placeholder splitting/substitution arithmetic, final-name template expansion, injectivity of the length-prefixed encoding (stated in DESIGN.md, not mechanised).",
+  "technique": "contract-based verification: digest-coverage / unguarded-traversal / provenance obligations decided on the data and control cones of go/ssa",
+  "design_ref": "DESIGN.md section 4 C18",
+}
+CLAIMS["C19"] = {
+  "text": "Proof of the byte-count clause as provenance obligations over go/ssa: the `bytes` reported for a chunk is len() of the very value stored as the output file's contents (taken after the source-map comment is appended); the values stored as contents are the finished joiner output / source map / legal comments; accurateFinalByteCount measures substituted paths relative to the importing chunk's own directory in both of its arms (as substituteFinalPaths does).",
+  "note": "NOT covered: the imports/exports/inputs lists of the metafile, that tree-shaken inputs contribute zero, Joiner length accounting, the relational equality accurateFinalByteCount = length of substituteFinalPaths' output (only the argument provenance is checked).",
+  "technique": "contract-based verification: provenance (data-cone) obligations over go/ssa",
+  "design_ref": "DESIGN.md section 4 C19",
+}
+NA = {k: PENDING for k in ["C01","C02","C04"]}
 NA["C05"] = "Lowering correctness is equivalence between two JavaScript programs (native construct vs helper-call expansion; helpers are JS text in runtime.go); a Go-level contract can state an AST shape, not what the shape computes. The Go-level facts (a construct is lowered iff its feature bit is unsupported) are C14's gate obligations."
 NA["C13"] = "Output re-parses / is a fixed point of print∘parse / every valid program is accepted are relations over the whole lexer+parser+printer against the ECMAScript and CSS grammars; no function's postcondition states them short of a verified parser."
